@@ -152,6 +152,8 @@ class Gen:
         return out
 
     def pick_table(self):
+        if getattr(self, 'fixed_tables', None):
+            return self.rng.choice(self.fixed_tables)
         r = self.rng.random()
         tabs = self.tables()
         if r < 0.5:
@@ -184,6 +186,8 @@ class Gen:
 
     def row_types(self, tbl):
         """Types for which a non-aggregate expression can be produced over tbl."""
+        if getattr(self, 'scalar_only', False):
+            return sorted({t for _, t in tbl.cols} | (set(LIT) - {'list'}))
         ts = {t for _, t in tbl.cols} | set(LIT) | {'dateutil.relativedelta.relativedelta'}
         return sorted(ts)
 
@@ -198,7 +202,8 @@ class Gen:
 
     def anyexpr(self, tbl, depth, mode='row'):
         for _ in range(20):
-            ty = self.rng.choice(self.row_types(tbl) if mode == 'row' else sorted(LIT) if mode == 'const' else
+            ty = self.rng.choice(self.row_types(tbl) if mode == 'row' else
+                                 sorted(set(LIT) - ({'list'} if getattr(self, 'scalar_only', False) else set())) if mode == 'const' else
                                  ['int', 'Decimal', 'object', 'bool', 'beancount.core.inventory.Inventory', 'str'])
             x = self.expr(tbl, ty, depth, mode)
             if x is not None:
@@ -235,7 +240,7 @@ class Gen:
         if ty in ('int', 'Decimal'):
             prods.append('neg')
         if ty == 'bool':
-            prods += ['not', 'isnull', 'and', 'or', 'between', 'in', 'insub']
+            prods += ['not', 'isnull', 'and', 'or', 'between', 'in'] + ([] if getattr(self, 'scalar_only', False) else ['insub'])
         if ty == 'object' and mode == 'row':
             prods += ['subscript', 'metafn']
         if mode == 'row':
@@ -412,7 +417,7 @@ class Gen:
         tbl = tbl or self.pick_table()
         st = {'tbl': tbl, 'from': tbl.frm, 'distinct': rng.random() < 0.15, 'targets': [], 'star': False, 'where': None,
               'group': None, 'having': None, 'order': [], 'pivot': None, 'limit': None, 'shape': None}
-        if rng.random() < 0.55:
+        if rng.random() < getattr(self, 'where_p', 0.55):
             st['where'] = self.anyexpr(tbl, depth, 'row') if rng.random() < 0.3 else self.expr(tbl, 'bool', depth, 'row')
         shape = rng.choice(['plain', 'plain', 'star', 'group', 'group', 'group', 'implicit', 'allagg', 'fromsub'])
         if nested and shape == 'fromsub':
